@@ -1,6 +1,7 @@
 E = 'babylon::ThreadPoolExecutor'
 TQ = 'babylon::ConcurrentBoundedQueue<babylon::ThreadPoolExecutor::Task>'
 ETL = 'babylon::EnumerableThreadLocal<babylon::ConcurrentBoundedQueue<babylon::ThreadPoolExecutor::Task>,0>'
+N = 'babylon::AlwaysUseNewThreadExecutor'
 IT = '__gnu_cxx::__normal_iterator<std::thread*,std::vector<std::thread>>'
 GROUP = dict(
     prop='C07',
@@ -9,20 +10,25 @@ GROUP = dict(
     aliases=[(ETL, 'LocalQs'), (TQ, 'TaskQ'), (E, 'Pool'), ('babylon::MoveOnlyFunction<void()>', 'Fn'), ('babylon::', '')],
     opaque_by_value=[TQ, 'babylon::MoveOnlyFunction<void()>', ETL, 'std::vector<std::thread>', 'std::thread', 'std::chrono::duration<long,std::ratio<1,1000000>>', 'std::string'],
     extra_structs={IT: 'struct @ { struct std_thread *p; };'},
-    outside_methods={'std::vector<std::thread>': ['size', 'clear', 'begin', 'end', 'empty'], 'std::thread': ['join', 'joinable'], IT: ['operator!=', 'operator==', 'operator++', 'operator*']},
-    outside_funcs={'operator!=': 'vf_thread_iter_ne', 'operator==': 'vf_thread_iter_eq'},
+    outside_methods={'std::vector<std::thread>': ['size', 'clear', 'begin', 'end', 'empty'], 'std::thread': ['join', 'joinable', 'detach'], IT: ['operator!=', 'operator==', 'operator++', 'operator*']},
+    outside_funcs={'usleep': 'vf_usleep', 'operator!=': 'vf_thread_iter_ne', 'operator==': 'vf_thread_iter_eq'},
     extern_re=[r'ConcurrentBoundedQueue<.*>::', r'MoveOnlyFunction<void\s*\(\)>::', r'EnumerableThreadLocal<.*>::', r'Executor::', r'RunnerScope::'],
-    roots=[{'lambda_in': E + '::keep_execute', 'ordinal': 1}, E + '::keep_execute', E + '::enqueue_task', E + '::invoke', E + '::stop', E + '::wakeup_one_worker'],
+    roots=[{'lambda_in': E + '::keep_execute', 'ordinal': 1}, E + '::keep_execute', E + '::enqueue_task', E + '::invoke', E + '::stop', E + '::wakeup_one_worker',
+           'babylon::InplaceExecutor::invoke', N + '::invoke', N + '::join', {'lambda_in': N + '::invoke', 'ordinal': 1}],
     reviewed_compiler_conditionals=['src/babylon/concurrent/bounded_queue.h:#if !__clang__ && BABYLON_GCC_VERSION < 50000'],
     assumptions=['ConcurrentBoundedQueue push/pop/try_pop/size, EnumerableThreadLocal local()/for_each, std::thread and std::vector<std::thread> are contract stubs: a pop delivers a task that was pushed, once (C01); join returns when the thread function returned',
                  'function objects are identified by a ghost id in the opaque MoveOnlyFunction; move leaves the source empty (stub of the move constructor)',
-                 'not under contract: futures/results of submit (executor.hpp), start(), keep_balance, RunnerScope / is_running_in, the inplace and always-new-thread executors'],
+                 'not under contract: futures/results of submit (executor.hpp), start(), keep_balance, the bodies of RunnerScope / is_running_in (stubs: a scope marks its executor as current on this thread)'],
     jobs=[
         dict(id='C07.steal', enforce='Pool_keep_execute_lambda_executor_keep_execute_1_op_call', loops=True, backend='cadical'),
         dict(id='C07.keep_execute', enforce='Pool_keep_execute', loops=True, backend='cadical'),
         dict(id='C07.enqueue_task', enforce='Pool_enqueue_task', backend='cadical'),
         dict(id='C07.invoke', enforce='Pool_invoke', backend='cadical'),
         dict(id='C07.wakeup_one_worker', enforce='Pool_wakeup_one_worker', backend='cadical'),
+        dict(id='C07.inplace.invoke', enforce='InplaceExecutor_invoke', backend='cadical'),
+        dict(id='C07.newthread.invoke', enforce='AlwaysUseNewThreadExecutor_invoke', backend='cadical'),
+        dict(id='C07.newthread.body', enforce='AlwaysUseNewThreadExecutor_invoke_lambda_executor_invoke_1_op_call', backend='cadical'),
+        dict(id='C07.newthread.join', enforce='AlwaysUseNewThreadExecutor_join', loops=True, backend='cadical'),
         dict(id='C07.stop', enforce='Pool_stop', loops=True, backend='cadical'),
     ],
 )
